@@ -312,3 +312,23 @@ package compiler
 //@     invariant [sorted] forall a int, b int :: len(old(d.Params)) <= a && a < b && b < len(d.Params) ==> d.Params[a].Name < d.Params[b].Name
 //@     invariant [nonnil_errs] forall j int :: 0 <= j && j < len(errs) ==> errs[j] != nil
 //@     invariant [a @a] len(errs) == 0 ==> (forall n string :: n in visited ==> s.resolver.ResolveParam(i.Params[n]).1 == nil)
+
+// ---- constructors
+//@ func New
+//@   property C10 C12
+//@   ensures [keeps_the_steps_in_order] result != nil && result.steps == steps
+//@ func NewStepCompileDecorators
+//@   property C04 C14
+//@   ensures [fields_as_given] result != nil && result.aliaser == a && result.argResolver == ar
+//@ func NewStepCompileMeta
+//@   property C13 C14
+//@   ensures [fields_as_given] result != nil && result.aliasRegisterer == a && result.funcRegisterer == fn
+//@ func NewStepCompileParams
+//@   property C03 C06
+//@   ensures [fields_as_given] result != nil && result.resolver == r
+//@ func NewStepCompileServices
+//@   property C02 C14
+//@   ensures [fields_as_given] result != nil && result.aliaser == a && result.argResolver == ar
+//@ func NewStepValidateInput
+//@   property C11
+//@   ensures [fields_as_given] result != nil && result.validator == v
